@@ -817,6 +817,17 @@ func (g *Gen) Device(t *GConf, nedits int, unmanaged bool) (*GConf, []string) {
 				if free {
 					drc++
 					n := fmt.Sprintf("%s_out-DRC-%d", intf, drc)
+					for taken := true; taken; {
+						// A left-over ACL of that interface may carry the name.
+						taken = false
+						for _, a := range d.ACLs {
+							if a.Name == n {
+								taken = true
+								drc++
+								n = fmt.Sprintf("%s_out-DRC-%d", intf, drc)
+							}
+						}
+					}
 					d.ACLs = append(d.ACLs, &GACL{n, []string{g.ACE(d), g.denyAll()}})
 					d.Binds = append(d.Binds, [3]string{n, "out", intf})
 					ops = append(ops, "binding-extra")
